@@ -89,7 +89,7 @@ def run(chk, replay=None):
         open(f, 'wb').write(g1 + b'\n' + b'z' * ((LIM or 70000) + 4464) + b'\n' + g2 + b'\n')
         rc, so, se = streamlib.cli_run(['redact', f])
         chk.count()
-        if (rc != 1 or so != g1o + b'\n') if LIM is not None else (rc != 0):
+        if (rc == 0 or streamlib.crashed(rc, se) or so != g1o + b'\n') if LIM is not None else (rc != 0):
             chk.violate('CLI: over-long line not reported as an explicit error', {'rc': rc, 'stdout': so[:200].decode('utf-8', 'replace'), 'stderr': se[-200:].decode('utf-8', 'replace')}, tags=['cli', 'toolong'])
         open(f, 'wb').write(b'\n'.join([g1] + rng.sample(odd[:300], 40) + [g2]) + b'\n')
         rc, so, se = streamlib.cli_run(['redact', f, '-n', '-w'])
